@@ -345,6 +345,10 @@ Definition prop_case (c : tcase) : bool :=
   let '(tbl, pre, ops, obs) := c in
   obs_cache_ok (map (fun i => (i, @of_Q FloatF TRUST_ANCHOR_INITIAL)) (dedupN pre)) [] ops obs.
 
+(* the input class excluded by C11_sybil_seventh_partial (decided on the model state) *)
+Definition c11_early_exit_class (st : state FloatF) (Sy : list N) : bool :=
+  negb ((4 <=? rounds_run st) || (105 * N.of_nat (length (node_set st)) <=? 100000 * N.of_nat (length Sy))).
+
 (* ---- C11 cases: a graph-building history WITHOUT computes, then one compute; [Sy] is the set of
    identities nobody outside vouches for.  The premises of the C11 theorems are decided here, on
    the model state, so a generator mistake shows up as a failing case rather than a vacuous pass. *)
@@ -376,9 +380,10 @@ Definition prop_c11 (c : c11case) : bool :=
   let total := @fsum FloatF (map snd obs) in
   let mS := @mass FloatF obs Sy in
   dist_ok obs && equal_factors tbl st && negb (a =? 0) && closed_set st Sy &&
-  (* C11_sybil_seventh: under its explicit side condition *)
-  ((negb ((4 <=? rounds_run st) || (105 * n <=? 100000 * k)))
-   || fle mS (PrimFloat.div (@of_N FloatF k) (PrimFloat.mul 7 (@of_N FloatF n)))) &&
+  (* the property as written (C11_sybil_seventh_full): NO side condition here.  The class that the
+     partial theorem excludes (fewer than 4 rounds AND share below 1.05e-3: known finding
+     c11-early-exit) fails this predicate and is tagged by the harness *)
+  fle mS (PrimFloat.div (@of_N FloatF k) (PrimFloat.mul 7 (@of_N FloatF n))) &&
   (* C11_small_net *)
   (negb (n <=? 100) || PrimFloat.ltb mS 0x1.0624dd2f1a9fcp-10%float) &&
   (* C11_anchor_floor *)
